@@ -21,6 +21,9 @@ RULE = ("cases = curated assignment shapes x random format assignments x random 
         "some input stores an entry and the reference output is not all zero; distinct by (assignment, formats, sizes, "
         "stored inputs, capacity)")
 
+ORDER4 = ["A(i,j,k,l) = B(i,j,k,l)", "A(i,j,k,l) = B(l,k,j,i)", "A(i,j,k,l) = B(i,j,k,l) + C(i,j,k,l)", "A(i,j) = B(i,j,k,l) * C(k,l)",
+          "a(i) = B(i,j,k,l) * c(j) * d(k) * e(l)", "A(i,j,k,l) = b(i) * c(j) * d(k) * e(l)"]
+
 PLAN = {
     "quick": dict(shards=12, fmt=10, inp=2, rnd=1300, draws=3, jit_every=3),
     "thorough": dict(shards=16, fmt=60, inp=3, rnd=16000, draws=4, jit_every=2),
@@ -92,6 +95,33 @@ def shard(rec, tier, index, n_shards):
             formats = gen.random_formats(rng, orders)
             for _ in range(plan["inp"]):
                 do(engine.build_case(rng, target, tree, formats, origin="curated"))
+    if tier == "thorough":
+        # bounded-exhaustive: every format assignment of every curated shape whose product is <= 20000,
+        # plus order-4 shapes with sampled formats
+        import itertools
+
+        from .. import taco
+
+        k = 0
+        for text in shapes + ORDER4:
+            target, tree = gen.parse(text)
+            orders = gen.tensor_orders(target, tree)
+            names = list(orders)
+            spaces = [taco.all_formats(orders[n_]) for n_ in names]
+            total = 1
+            for sp in spaces:
+                total *= len(sp)
+            if total <= 20000:
+                combos = itertools.product(*spaces)
+                rec.count("shapes_with_exhaustive_formats", 1 if index == 0 else 0)
+            else:
+                combos = (tuple(rng.choice(sp) for sp in spaces) for _ in range(3000))
+            for combo in combos:
+                k += 1
+                if k % n_shards != index:
+                    continue
+                formats = {n_: taco.fmt_text(*f) for n_, f in zip(names, combo)}
+                do(engine.build_case(rng, target, tree, formats, origin="exhaustive-formats"))
     per = plan["rnd"] // n_shards
     for case in engine.random_cases(rng, per, plan["draws"]):
         do(case)
